@@ -423,10 +423,12 @@ class DisjunctionMaxMatcher(UnionMatcher):
         while a.is_active() and b.is_active() and max(aq, bq) <= minquality:
             if aq <= minquality:
                 skipped += a.skip_to_quality(minquality)
-                aq = a.block_quality()
+                if a.is_active():
+                    aq = a.block_quality()
             if bq <= minquality:
                 skipped += b.skip_to_quality(minquality)
-                bq = b.block_quality()
+                if b.is_active():
+                    bq = b.block_quality()
         return skipped
 
 
